@@ -368,8 +368,15 @@ def parentAttrs : List Str :=
 
 def lookup {β : Type} (d : List (Str × β)) (k : Str) : Option β := (d.find? (·.1 == k)).map (·.2)
 
-/-- the header file written by `Grid.save` (a grid always holds native data: byte order `I`) -/
-def writeHeader {ν : Type} (io : NumIO ν) (g : Grid ν) : Except Err Str :=
+/-- the BYTEORDER letter -/
+def boLetter : ByteOrder → Str
+  | .big => "M".toList
+  | .little => "I".toList
+
+/-- the header file written by `Grid.save`. `bo` is `np.dtype(self.dtype).byteorder == ">"`: a grid built by
+this module always holds native data, so `save` itself only ever takes the `I` branch (`writeHeader`); the
+`M` branch is what a big-endian raster produced elsewhere carries. -/
+def writeHeaderBO {ν : Type} (io : NumIO ν) (bo : ByteOrder) (g : Grid ν) : Except Err Str :=
   match pixelTypeOfName (stripTrailingDigits (dtypeName g.dtype)) with
   | none => .error .pixelUnrecognised
   | some pixeltype =>
@@ -382,7 +389,7 @@ def writeHeader {ν : Type} (io : NumIO ν) (g : Grid ν) : Except Err Str :=
       fmtLine 14 "CELLSIZE".toList (io.showF g.csz) ++
       fmtLine 14 "NBITS".toList (natStr (g.dtype.bytes * 8)) ++
       fmtLine 14 "PIXELTYPE".toList (upper pixeltype) ++
-      fmtLine 14 "BYTEORDER".toList "I".toList ++
+      fmtLine 14 "BYTEORDER".toList (boLetter bo) ++
       fmtLine 14 "NODATA_VALUE".toList (nodataStr io g.dtype g.nodata) ++
       fmtLine 14 "NAME".toList g.name ++
       fmtLine 14 "COMMENT".toList comment ++
@@ -390,6 +397,8 @@ def writeHeader {ν : Type} (io : NumIO ν) (g : Grid ν) : Except Err Str :=
         match lookup g.parent a with
         | some v => fmtLine 22 (upper a) (v.str io)
         | none => []))
+
+def writeHeader {ν : Type} (io : NumIO ν) (g : Grid ν) : Except Err Str := writeHeaderBO io .little g
 
 /-- `Grid.save`: header text and data bytes -/
 def save {ν : Type} (io : NumIO ν) (g : Grid ν) : Except Err (Str × List UInt8) :=
